@@ -117,6 +117,9 @@ def scenarios(tier):
     ch = "lines"
     L = dict(lazy_timer=True)     # time passes only when the network is otherwise quiet
     S.append(mk("direct-r-listens", dict(r_listens=True, chunking="lines"), max_depth=80, max_states=500000))
+    # transports that keep delivering in-flight bytes after loseConnection() until the close completes (allowed by ITransport,
+    # e.g. TLS): a contender that was cancelled (deadline, or a winner elsewhere) must stay deaf to the rest of a handshake
+    S.append(mk("direct-r-listens-linger", dict(r_listens=True, chunking="lines", linger_reads=True), max_depth=80, max_states=500000))
     S.append(mk("both-listen-race", dict(r_listens=True, s_listens=True, chunking=ch, conn_fail=True, **L), max_depth=100, max_states=1500000))
     S.append(mk("relay-only", dict(relay=True, chunking=ch, **L), max_depth=100, max_states=1500000))
     S.append(mk("direct-vs-relay-lazy", dict(r_listens=True, relay=True, chunking="whole", **L), max_depth=120, max_states=1500000))
